@@ -8,6 +8,7 @@ CONSTANTS
   NRandom = 0
   BuildMax = 3
   BuildIds = {1, 2, 3}
+  WithFamilies = FALSE
   StaticInit = FALSE
 INIT Init
 NEXT Next
